@@ -3,7 +3,7 @@
    of every kind, with no assumption on the documents. *)
 From Coq Require Import ZArith NArith List Bool Lia Arith.
 From FV.Model Require Import Bytes Bson Metrics Codec Collector Wf RoundTrip CollectorOk.
-From FV.Proofs Require Import CodecChunk CodecProofs CollectorHyps CollectorBase CollectorKinds CollectorInv.
+From FV.Proofs Require Import CodecChunk CodecProofs CollectorBase CollectorKinds CollectorInv.
 Import ListNotations.
 Open Scope Z_scope.
 
@@ -291,7 +291,7 @@ Lemma new_coll_unmixed : forall k n, unmixed (new_coll k n).
 Proof. intros k n. destruct k; cbn [new_coll]; repeat constructor. Qed.
 
 (* every chunk under construction in every reachable state of every kind *)
-Theorem c08_no_mixing : forall k n ops, unmixed (fst (reach deflate k n ops)).
-Proof. intros k n ops. unfold reach. apply run_unmixed. apply new_coll_unmixed. Qed.
+Theorem c08_no_mixing : forall k n ops, unmixed (fst (c07_reach deflate k n ops)).
+Proof. intros k n ops. unfold c07_reach. apply run_unmixed. apply new_coll_unmixed. Qed.
 
 End Mix.
